@@ -116,6 +116,7 @@ def run(rep):
     rep.guard(c13.u5, rep, w)     # the range a loop iterates is the one written: a cache hit has exactly the requested bounds, in that order
     import c01
     rep.guard(c01.r2, rep, w)     # what a loop remembers between steps (an element class, a one-character string) is rooted or recomputed: an address compared after its object was reclaimed matches another object
+    rep.guard(c01.r0, rep, w)     # `words.iter().map("k".starts_with)`: the adapter holds a bound method whose blacken re-greys its receiver - the collector has to iterate to a fixpoint
 
 
 def q1(rep, w):
